@@ -504,9 +504,18 @@ func (e *Engine) onlyInitStores(pkgPath, name string) bool {
 
 // privateNetworksValue builds the []*net.IPNet value as init() leaves it.
 func (e *Engine) privateNetworksValue(c *Ctx, s *State, cidrs []string) Value {
+	// modelling the init-time contents is not a write of the function being analysed
+	savedW := c.written
+	c.written = nil
+	defer func() { c.written = savedW }()
 	ipnetT := e.namedType("net.IPNet")
-	arr := c.d.Const("init|privateNetworks.arr", SInt)
-	c.d.Axiom(fmt.Sprintf("(not (= %s 0))", arr.S))
+	c.d.Fun("gid", []Sort{SInt}, SInt)
+	mkObj := func(name string) Term {
+		t := c.d.Const(name, SInt)
+		c.d.Axiom(fmt.Sprintf("(and (not (= %s 0)) (= (gid %s) %d))", t.S, t.S, e.globalID(name)))
+		return t
+	}
+	arr := mkObj("init|privateNetworks.arr")
 	var listed []string
 	for i, cs := range cidrs {
 		_, nw, err := net.ParseCIDR(cs)
@@ -514,15 +523,13 @@ func (e *Engine) privateNetworksValue(c *Ctx, s *State, cidrs []string) Value {
 			continue
 		}
 		listed = append(listed, cs)
-		obj := c.d.Const(fmt.Sprintf("init|privateNetworks.%d", i), SInt)
-		c.d.Axiom(fmt.Sprintf("(not (= %s 0))", obj.S))
+		obj := mkObj(fmt.Sprintf("init|privateNetworks.%d", i))
 		// element i of the slice is obj
 		ptrT := types.NewPointer(ipnetT)
 		c.storeElem(s, arr, IntLit(int64(i)), ptrT, Sc{T: obj})
 		// obj.IP, obj.Mask are byte slices with known contents
 		mk := func(bytes []byte, tag string) Value {
-			ba := c.d.Const(fmt.Sprintf("init|privateNetworks.%d.%s", i, tag), SInt)
-			c.d.Axiom(fmt.Sprintf("(not (= %s 0))", ba.S))
+			ba := mkObj(fmt.Sprintf("init|privateNetworks.%d.%s", i, tag))
 			for j, b := range bytes {
 				c.storeElem(s, ba, IntLit(int64(j)), types.Typ[types.Uint8], Sc{T: BVLit(uint64(b), 8)})
 			}
